@@ -13,6 +13,8 @@ type KsfT = <Cs as CipherSuite>::Ksf;
 pub enum Obj {
     Setup(ServerSetup<Cs>),
     SetupX(ServerSetup<Cs, ExtKey<Kg>>),
+    SetupHs(ServerSetup<Cs, HndKey<Kg, HndShort>>),
+    SetupHl(ServerSetup<Cs, HndKey<Kg, HndLong>>),
     CReg(ClientRegistration<Cs>),
     CLogin(ClientLogin<Cs>),
     SLogin(ServerLogin<Cs>),
@@ -32,6 +34,8 @@ macro_rules! each_obj {
         match $o {
             Obj::Setup($x) => $body,
             Obj::SetupX($x) => $body,
+            Obj::SetupHs($x) => $body,
+            Obj::SetupHl($x) => $body,
             Obj::CReg($x) => $body,
             Obj::CLogin($x) => $body,
             Obj::SLogin($x) => $body,
@@ -53,6 +57,8 @@ impl Obj {
         match self {
             Obj::Setup(_) => "setup",
             Obj::SetupX(_) => "setupx",
+            Obj::SetupHs(_) => "setuphs",
+            Obj::SetupHl(_) => "setuphl",
             Obj::CReg(_) => "creg",
             Obj::CLogin(_) => "clogin",
             Obj::SLogin(_) => "slogin",
@@ -80,6 +86,8 @@ impl Obj {
         match self {
             Obj::Setup(x) => Obj::Setup(x.clone()),
             Obj::SetupX(x) => Obj::SetupX(x.clone()),
+            Obj::SetupHs(x) => Obj::SetupHs(x.clone()),
+            Obj::SetupHl(x) => Obj::SetupHl(x.clone()),
             Obj::CReg(x) => Obj::CReg(x.clone()),
             Obj::CLogin(x) => Obj::CLogin(x.clone()),
             Obj::SLogin(x) => Obj::SLogin(x.clone()),
@@ -107,6 +115,8 @@ fn native_de(kind: &str, d: &[u8]) -> Result<Api<Obj>, String> {
     Ok(match kind {
         "setup" => api(ServerSetup::<Cs>::deserialize(d)).map(Obj::Setup),
         "setupx" => api(ServerSetup::<Cs, ExtKey<Kg>>::deserialize(d)).map(Obj::SetupX),
+        "setuphs" => api(ServerSetup::<Cs, HndKey<Kg, HndShort>>::deserialize(d)).map(Obj::SetupHs),
+        "setuphl" => api(ServerSetup::<Cs, HndKey<Kg, HndLong>>::deserialize(d)).map(Obj::SetupHl),
         "creg" => api(ClientRegistration::<Cs>::deserialize(d)).map(Obj::CReg),
         "clogin" => api(ClientLogin::<Cs>::deserialize(d)).map(Obj::CLogin),
         "slogin" => api(ServerLogin::<Cs>::deserialize(d)).map(Obj::SLogin),
@@ -132,6 +142,8 @@ macro_rules! serde_de {
         match $kind {
             "setup" => $f.map(Obj::Setup),
             "setupx" => $f.map(Obj::SetupX),
+            "setuphs" => $f.map(Obj::SetupHs),
+            "setuphl" => $f.map(Obj::SetupHl),
             "creg" => $f.map(Obj::CReg),
             "clogin" => $f.map(Obj::CLogin),
             "slogin" => $f.map(Obj::SLogin),
@@ -329,7 +341,32 @@ impl M {
             "setup_new_with_key" => {
                 let sk = ghex(c, "sk")?;
                 let ext = c["ext"].as_bool().unwrap_or(false);
-                if ext {
+                let hnd = c["hnd"].as_str().unwrap_or("");
+                if hnd == "short" {
+                    match api(KeyPair::<Kg, HndKey<Kg, HndShort>>::from_private_key_slice(&hnd_handle_for(&sk, HndShort::USIZE))) {
+                        Err(e) => errv(e),
+                        Ok(kp) => {
+                            let s = self.with_rng(c, &mut draws, |_, rng| {
+                                Ok(ServerSetup::<Cs, HndKey<Kg, HndShort>>::new_with_key(rng, kp))
+                            })?;
+                            let r = okv(json!({"ser": hexs(&s.serialize()), "pk": hexs(&s.keypair().public().serialize())}));
+                            self.put(c, "out", Obj::SetupHs(s));
+                            r
+                        }
+                    }
+                } else if hnd == "long" {
+                    match api(KeyPair::<Kg, HndKey<Kg, HndLong>>::from_private_key_slice(&hnd_handle_for(&sk, HndLong::USIZE))) {
+                        Err(e) => errv(e),
+                        Ok(kp) => {
+                            let s = self.with_rng(c, &mut draws, |_, rng| {
+                                Ok(ServerSetup::<Cs, HndKey<Kg, HndLong>>::new_with_key(rng, kp))
+                            })?;
+                            let r = okv(json!({"ser": hexs(&s.serialize()), "pk": hexs(&s.keypair().public().serialize())}));
+                            self.put(c, "out", Obj::SetupHl(s));
+                            r
+                        }
+                    }
+                } else if ext {
                     match api(KeyPair::<Kg, ExtKey<Kg>>::from_private_key_slice(&sk)) {
                         Err(e) => errv(e),
                         Ok(kp) => {
@@ -358,6 +395,8 @@ impl M {
             "setup_pk" => match self.obj(c, "h")? {
                 Obj::Setup(s) => okv(json!({"pk": hexs(&s.keypair().public().serialize())})),
                 Obj::SetupX(s) => okv(json!({"pk": hexs(&s.keypair().public().serialize())})),
+                Obj::SetupHs(s) => okv(json!({"pk": hexs(&s.keypair().public().serialize())})),
+                Obj::SetupHl(s) => okv(json!({"pk": hexs(&s.keypair().public().serialize())})),
                 _ => return Err("not a setup".into()),
             },
             "de" => {
@@ -444,6 +483,8 @@ impl M {
                 let r = match self.obj(c, "setup")? {
                     Obj::Setup(s) => api(ServerRegistration::<Cs>::start(s, req, &cred)),
                     Obj::SetupX(s) => api(ServerRegistration::<Cs>::start(s, req, &cred)),
+                    Obj::SetupHs(s) => api(ServerRegistration::<Cs>::start(s, req, &cred)),
+                    Obj::SetupHl(s) => api(ServerRegistration::<Cs>::start(s, req, &cred)),
                     _ => return Err("setup: not a setup".into()),
                 };
                 match r {
@@ -548,10 +589,14 @@ impl M {
                 enum St {
                     A(ServerSetup<Cs>),
                     B(ServerSetup<Cs, ExtKey<Kg>>),
+                    C(ServerSetup<Cs, HndKey<Kg, HndShort>>),
+                    D(ServerSetup<Cs, HndKey<Kg, HndLong>>),
                 }
                 let setup = match self.obj(c, "setup")? {
                     Obj::Setup(s) => St::A(s.clone()),
                     Obj::SetupX(s) => St::B(s.clone()),
+                    Obj::SetupHs(s) => St::C(s.clone()),
+                    Obj::SetupHl(s) => St::D(s.clone()),
                     _ => return Err("setup: not a setup".into()),
                 };
                 // cloning an ExtKey-backed setup is not an interface operation: discard nothing,
@@ -585,6 +630,8 @@ impl M {
                     Ok(match &setup {
                         St::A(s) => api(ServerLogin::<Cs>::start(rng, s, file, req, &cred, params)),
                         St::B(s) => api(ServerLogin::<Cs>::start(rng, s, file, req, &cred, params)),
+                        St::C(s) => api(ServerLogin::<Cs>::start(rng, s, file, req, &cred, params)),
+                        St::D(s) => api(ServerLogin::<Cs>::start(rng, s, file, req, &cred, params)),
                     })
                 })?;
                 match r {
